@@ -430,10 +430,10 @@ Proof.
     destruct (ch_confirm ch); cbn [fst]; (lk Hch H; repeat same_conns; auto).
   - destruct (queue_found s q) as [qu|]; [|exact H].
     destruct (fx_excl_owner fx && locked qu c); [exact H|].
-    destruct (find_consumer ch tag); [exact H|].
+    destruct (find_consumer ch _); [exact H|].
     destruct (_ && _)%bool; cbn [fst].
     + same_conns. auto.
-    + lk Hch H. repeat same_conns. auto.
+    + lk Hch H. destruct (seqb tag ""%string); repeat same_conns; auto.
   - destruct (find_consumer ch tag); [|exact H]. cbn [fst].
     apply allch_upd_chan; [intros; assumption|]. apply LI_consumer_stop. exact H.
   - (* MGet *)
